@@ -400,6 +400,7 @@ func runR_C13(c *Ctx) {
 	sweepHealth(c, ps...)
 	rR1(c, ps...)
 	rR2(c, ps...)
+	rConstIndex(c, ps...)
 	// sort
 	for _, rs := range c.acceptedResids("sort") {
 		if rs.Err != nil || len(rs.Funcs) != 1 {
